@@ -562,6 +562,49 @@ theorem listing_flags_synced_iff_local {N : Type} (names : List (N × ListIn)) (
   obtain ⟨i, hm, hle⟩ := h
   exact ⟨i, hm, listEntry_flag i s hle⟩
 
+/-! ### the listing law holds in EVERY state, not only at quiescence -/
+
+/-- **listed ⇒ no tombstone** (`_get_smartinfo`, all feature combinations = all states): whatever is reported as a
+    not-downloaded remote object has neither side known TRASHED/MISSING -/
+theorem info_remote_only_not_gone (i : ListIn) (h : getSmartInfo i = some false) :
+    i.localGone = false ∧ i.remoteGone = false ∧ i.hasLocal = false ∧ i.hasRent = true := by
+  obtain ⟨a, b, c, d, e, f, g, h'⟩ := i
+  cases a <;> cases b <;> cases c <;> cases d <;> cases e <;> cases f <;> cases g <;> cases h' <;>
+    simp_all [getSmartInfo]
+
+/-- the same for a row of the merged folder listing, for `smart_info_path` and for `smart_info_oid` -/
+theorem listed_remote_only_not_gone (i : ListIn) (h : listEntry i = some false) :
+    i.localGone = false ∧ i.remoteGone = false := by
+  obtain ⟨a, b, c, d, e, f, g, h'⟩ := i
+  cases a <;> cases b <;> cases c <;> cases d <;> cases e <;> cases f <;> cases g <;> cases h' <;>
+    simp_all [listEntry, getSmartInfo]
+
+theorem infoPath_remote_only_not_gone (i : ListIn) (h : infoPath i = some false) :
+    i.localGone = false ∧ i.remoteGone = false :=
+  let r := info_remote_only_not_gone i h; ⟨r.1, r.2.1⟩
+
+theorem infoOid_not_gone (k t : Bool) (i : ListIn) (s : Bool) (h : infoOid k t i = some s) :
+    s = false ∧ k = true ∧ t = true ∧ i.localGone = false ∧ i.remoteGone = false := by
+  obtain ⟨a, b, c, d, e, f, g, h'⟩ := i
+  cases k <;> cases t <;> cases s <;> cases a <;> cases b <;> cases c <;> cases d <;> cases e <;> cases f <;> cases g <;>
+    cases h' <;> simp_all [infoOid, getSmartInfo]
+
+/-- … so in the whole listing of a folder, in any state, no row stands for an entry with a tombstone on either side -/
+theorem merged_listing_no_ghost {N : Type} (names : List (N × ListIn)) (n : N) (h : (n, false) ∈ mergedListing names) :
+    ∃ i, (n, i) ∈ names ∧ i.localGone = false ∧ i.remoteGone = false := by
+  rw [listing_flags] at h
+  obtain ⟨i, hm, hle⟩ := h
+  exact ⟨i, hm, listed_remote_only_not_gone i hle⟩
+
+/-- kernel-checked witness for the variant that tests the LOCAL tombstone twice: a never-downloaded file whose remote side
+    is known TRASHED (remote delete taken in, sync step not yet run: size/mtime still there) is reported as a remote file,
+    while the code as it is reports nothing -/
+theorem ghost_listed_when_local_checked_twice :
+    let i : ListIn := { hasLocal := false, hasRent := true, rentLocalPath := false, pathsMatch := false, localGone := false,
+                        remoteGone := true, localVisible := false, remoteVisible := true }
+    getSmartInfoLocalTwice i = some false ∧ getSmartInfo i = none ∧ listEntry i = none := by
+  decide
+
 /-- non-vacuity: concrete feature vectors for every clause above -/
 example :
     preSyncGate ⟨false, false, false, false, false, true, false, false⟩ = ⟨true, some ⟨.rem, .smartUnsynced, .remotePath⟩⟩ ∧
@@ -817,6 +860,25 @@ theorem listingOk_sound (quiet : Bool) (lk rk : List String) (ents : List (Strin
           simp only [Bool.and_eq_true, Bool.not_eq_true', not_and] at this
           have h4 := this (by simpa using hnl)
           simpa using h4
+
+/-! ### the ghost obligation (every instant) -/
+
+/-- what a verdict "ok" of the ghost obligation means: no reported row is a not-downloaded remote file whose remote side
+    the engine knows to be TRASHED/MISSING -/
+theorem ghostOk_iff (rows : List Row) :
+    ghostOk rows = true ↔ ∀ r ∈ rows, r.synced = false → r.remoteKnownGone = false := by
+  unfold ghostOk ghostOf
+  rw [Option.isNone_iff_eq_none, Option.map_eq_none_iff, List.find?_eq_none]
+  constructor
+  · intro h r hr hs
+    have := h r hr
+    cases hg : r.remoteKnownGone <;> simp_all
+  · intro h r hr
+    have := h r hr
+    cases hs : r.synced <;> simp_all
+
+example : ghostOk [⟨"a", true, true⟩, ⟨"b", false, false⟩] = true ∧ ghostOf [⟨"a", false, false⟩, ⟨"g", false, true⟩] = some "g" := by
+  decide
 
 /-- non-vacuity: one accepted and one rejected instance of every obligation -/
 example :
